@@ -55,6 +55,18 @@ where
     }
 }
 
+#[cfg(feature = "verif-hooks")]
+impl<RK, DLY, const P: u8, const G: i8> LorawanRadio<RK, DLY, P, G>
+where
+    RK: RadioKind,
+    DLY: DelayNs,
+{
+    /// Read-only view of the wrapped driver's bookkeeping, see [`LoRa::verif_state`].
+    pub fn verif_state(&self) -> (super::mod_params::RadioMode, bool, bool) {
+        self.lora.verif_state()
+    }
+}
+
 /// Provide the timing values
 impl<RK, DLY, const P: u8, const G: i8> Timings for LorawanRadio<RK, DLY, P, G>
 where
